@@ -22,7 +22,8 @@ SSS = [
 def inputs():
     return [a, integer(1), flt(2.5), cplx("f", a, X), EMPTY, lst([a]), lst([a, b]), lst([lst([b, c])]), lst([EMPTY]),
             lst([a, lst([b, c])]), lst([a], T), lst([a, b], U), lst([X], T), lst([a], ANON), lst([a], Z), T, U, V, W, X,
-            lst([lst([a], T)]), lst([a], W), fn("add", integer(1), integer(2))]
+            lst([lst([a], T)]), lst([a], W), fn("add", integer(1), integer(2)),
+            lst([a, b, c, q, integer(1), integer(2), a, b, lst([c]), EMPTY, q, a]), lst([a, b, c, q, a, b, c, q, a], T), lst([q] * 17, U)]
 
 def cases(tier, rng):
     out = []
@@ -52,7 +53,7 @@ def cases(tier, rng):
         if cse[0] not in seen: seen.add(cse[0]); res.append(cse)
     return res
 
-RULE = ("append with 1 input (all of 23 inputs), 2 inputs (a sample of all pairs; thorough: all) and 1-4 random inputs, under 7 "
+RULE = ("append with 1 input (all of 26 inputs, three of them lists of 9-17 elements), 2 inputs (a sample of all pairs; thorough: all) and 1-4 random inputs, under 7 "
         "substitutions that bind tail variables to lists (also to a list whose tail is again bound, to [], to a non-list), "
         "variables to constants and through chains; inputs: atoms, numbers, complex terms, [], nested and empty-list elements, "
         "lists with bound / unbound / $_ tails, bound and unbound variables, a function term. Oracle (python twin of "
